@@ -7,4 +7,4 @@ require (
 	github.com/inspirer/textmapper v0.0.0
 )
 
-replace github.com/inspirer/textmapper => /tmp/mutrepo-mut5447
+replace github.com/inspirer/textmapper => /tmp/mutrepo-mut20935
